@@ -56,6 +56,33 @@ theorem C11_insert_from_other (f g : Field) (i k p : Nat) (hp : nthNode .ENTRY g
   obtain ⟨e, hk, he, hm⟩ := C11_live_entry g k p hp
   exact ⟨e, _, hk, hm, C11_refine_insert f i e he⟩
 
+/-- the node `get_entry(k).get_relation(j)` shows is a RELATION node -/
+theorem C11_live_relation (f : Field) (k j pk q : Nat) (hq : nthNode .RELATION (f.entryKids pk) j = some q) :
+    ∃ r, (f.entryKids pk)[q]? = some r ∧ isNodeOf .RELATION r = true := by
+  obtain ⟨pre, r, post, hk, hl, hr, _⟩ := nthPos_some hq
+  subst hl
+  exact ⟨r, by rw [hk]; simp, hr⟩
+
+/-- `e_i.push(e_k.get_relation(j))` with a LIVE relation of the same (or another) entry of the field:
+    entry `i` gets a copy of that relation as its last alternative -/
+theorem C11_entryPush_live (f : Field) (i p k j pk q : Nat) (hp : nthNode .ENTRY f.kids i = some p)
+    (hq : nthNode .RELATION (f.entryKids pk) j = some q) :
+    ∃ r, (f.entryKids pk)[q]? = some r
+      ∧ abs (f.entryPushAt p r).root = S.entryPush (abs f.root) i (recOf r) := by
+  have _ := k
+  obtain ⟨r, hk, hr⟩ := C11_live_relation f k j pk q hq
+  exact ⟨r, hk, C11_refine_entryPush f i p hp r hr⟩
+
+/-- `e_i.replace(j', e_k.get_relation(j))` with a live relation as operand: alternative `j'` of entry
+    `i` becomes a copy of it (fix 087335d: the operand is copied, the entry it came from keeps it) -/
+theorem C11_entryReplace_live (f f' : Field) (i j' p k j pk q : Nat) (hp : nthNode .ENTRY f.kids i = some p)
+    (hq : nthNode .RELATION (f.entryKids pk) j = some q) :
+    ∃ r, (f.entryKids pk)[q]? = some r
+      ∧ (f.entryReplaceAt p j' r = .ok f' → abs f'.root = S.entryReplace (abs f.root) i j' (recOf r)) := by
+  have _ := k
+  obtain ⟨r, hk, hr⟩ := C11_live_relation f k j pk q hq
+  exact ⟨r, hk, fun h => C11_refine_entryReplace f f' i j' p hp r hr h⟩
+
 /-- witness (F-C11-9, fixed): `a, b, c`.replace(0, get_entry(2)) prints `c, b, c` -/
 def liveF : Field := ⟨(readRelaxed "a, b, c".toList false).1.children, [], []⟩
 
